@@ -2,7 +2,7 @@
 From Coq Require Import Lia.
 From AV Require Import Base.Bytes Base.Outcome Hash.HashModel Spec.SpecOps Xml.TablesOk Tree.Heap Tree.Ops Tree.Script Tree.Inv.
 From AV Require Import Tree.NoPanic Tree.NoPanicProofsBase Tree.NoPanicProofsOps1 Tree.NoPanicProofsDepth.
-From AV Require Import Tree.NoPanicProofsClosed Tree.NoPanicProofsOps2 Tree.NoPanicProofsOps3 Tree.NoPanicProofsOps4 Tree.NoPanicProofsOps5.
+From AV Require Import Tree.NoPanicProofsClosed Tree.NoPanicProofsOps2 Tree.NoPanicProofsOps3 Tree.NoPanicProofsOps4 Tree.NoPanicProofsOps5 Tree.NoPanicProofsCopy Tree.NoPanicProofsCopy2.
 Open Scope string_scope.
 Open Scope list_scope.
 Open Scope N_scope.
@@ -26,13 +26,15 @@ Notation PanicFree := (PanicFree T tab_el tab_en).
 Notation op_wf := (op_wf tab_el tab_en).
 Notation run12 := (run12 T tab_el tab_en check_fn LATEST root_attrs).
 
-Theorem no_panic_covered w o : covered_op o = true -> PanicFree w -> op_wf w o -> runs (run12 o) w.
+Theorem no_panic_covered w o : covered_op o = true -> PanicFree w -> SizeOk w -> op_wf w o -> runs (run12 o) w.
 Proof.
-  intros COV PF WF. unfold run12, run_op. destruct o; try discriminate COV; cbn [op_wf] in WF; unfold h_ok, m_ok, f_ok in WF.
+  intros COV PF SZ WF. unfold run12, run_op. destruct o; try discriminate COV; cbn [op_wf] in WF; unfold h_ok, m_ok, f_ok in WF.
   - apply runs_welem. apply (ENV np_create_sub_element); tauto.
   - apply runs_welem. apply (ENV np_create_sub_element_at); tauto.
   - apply runs_welem. apply (ENV np_create_named); tauto.
   - apply runs_welem. apply (ENV np_create_named_at); tauto.
+  - apply runs_welem. apply (ENV np_copy); tauto.
+  - apply runs_welem. apply (ENV np_copy_at); tauto.
   - apply runs_wunit. apply (ENV np_remove); tauto.
   - apply runs_wunit. apply (ENV np_remove_kind); tauto.
   - apply runs_wunit. apply (ENV np_set_item_name); tauto.
@@ -54,7 +56,7 @@ Proof.
   - apply runs_wunit. apply (ENV np_remove_from_file); tauto.
 Qed.
 
-Theorem no_panic_covered' w o : covered_op o = true -> PanicFree w -> op_wf w o ->
+Theorem no_panic_covered' w o : covered_op o = true -> PanicFree w -> SizeOk w -> op_wf w o ->
   (forall s, run12 o w <> Pan s) /\ run12 o w <> Fuel.
 Proof. intros. apply runs_not_pan. apply no_panic_covered; assumption. Qed.
 
@@ -85,7 +87,7 @@ Qed.
 (* which constructors the partial theorem covers (pinned, so that coverage cannot shrink silently) *)
 Theorem coverage : forall o,
   covered_op o = match o with
-                 | OpCopy _ _ | OpCopyAt _ _ _ | OpMove _ _ | OpMoveAt _ _ _ => false
+                 | OpMove _ _ | OpMoveAt _ _ _ => false
                  | OpSetCData _ (DFloat _) => false
                  | _ => true
                  end.
